@@ -1157,3 +1157,7 @@ for _f in sorted(_glob.glob(_os.path.join(_VERIF, 'seeded', 'variants', 'C[0-9][
     _b = _os.path.basename(_f)
     dfire('variant-' + _b.replace('.diff', '')[:60], _b[:3], _os.path.relpath(_f, _VERIF), None,
           why='an accepted refactoring with one breaking edit (made with bin/mk_variant)')
+dtwin('c05-second-evolvent-same-box', 'C05', 'seeded/variants/C20-factory-builds-second-evolvent.diff',
+      why='the second evolvent is built from task.problem, the same box: the affine map (C05) is unaffected')
+dtwin('c07-second-evolvent-same-box', 'C07', 'seeded/variants/C20-factory-builds-second-evolvent.diff',
+      why='the second evolvent is built from task.problem, the same box: the bounds binding (C07) is unaffected')
